@@ -601,13 +601,14 @@ def mon_history(rr):
                 out.append(Failure("remove_failed", i, f"remove -> {' '.join(res[:3])}"))
         elif kind == "remove_fully":
             if k in idx:
-                if idx[k] in store:
-                    if res[0] != "ok":
-                        out.append(Failure("remove_failed", i, f"remove_fully -> {' '.join(res[:3])}"))
-                    else:
-                        store.discard(idx[k])
-                        idx.pop(k)
-                # content already gone: documented error, bucket stays
+                # a full removal of a live key deletes its entry and its content - also when the content is
+                # already gone (removed by address, or shared with a key that was removed fully)
+                if res[0] != "ok":
+                    out.append(Failure("remove_failed", i, f"remove_fully of a live key -> {' '.join(res[:3])}",
+                                       sig={"op": "remove_fully", "content_present": idx[k] in store}))
+                else:
+                    store.discard(idx[k])
+                    idx.pop(k)
             # never-written / removed key: result not constrained by the statement
             if res[0] == "ok":
                 # the bucket file is gone: every key sharing it (only k, barring SHA-1 collisions) is absent
@@ -747,6 +748,11 @@ def mon_shared_removal(rr):
                                f"{'found' if m is not None else ''}{' and ' if m is not None and listed else ''}{'listed' if listed else ''}", sig=sig))
         if res[0] == "err" and m is None:
             out.append(Failure("failed_removal_removed", j, f"{op[0]} {op[1]} answered {' '.join(res[:3])} but the key is gone", sig=sig))
+        if res[0] == "err":
+            # every key of these programs is live when its removal is issued: a (full) removal of a live key
+            # deletes its entry and whatever is left of its content - also when the shared content is gone already
+            out.append(Failure("removal_of_live_key_fails", idx, f"{op[0]} {op[1]} of a live key whose content was "
+                               f"already removed through another key / by address -> {' '.join(res[:3])}", sig=sig))
     return out
 
 
